@@ -46,6 +46,19 @@ def impure_summary(db):
                             continue
                         why = "calls %s at %s:%d" % (c, f.file, n["l"])
                         break
+        if not why and f.d.get("cls") in ("Chunk", "ChunkListManager") and not f.d["sig"].endswith("const") and f.qn not in TRACKING_METHODS:
+            from ..facts import root_decl
+            for n in f.nodes.values():
+                if n["k"] == "asg" or (n["k"] == "un" and n["op"] in ("++", "--")):
+                    rd = root_decl(f, n["a"][0])
+                    if rd is not None and rd[0] in ("this", "fd"):
+                        why = "writes the chunk field `%s` at %s:%d" % (expr_str(f, n["a"][0]), f.file, n["l"])
+                        break
+                if n["k"] == "call" and (n.get("c") or "").endswith("::operator=") and "o" in n:
+                    rd = root_decl(f, n["o"])
+                    if rd is not None and rd[0] in ("this", "fd"):
+                        why = "assigns the chunk field `%s` at %s:%d" % (expr_str(f, n["o"]), f.file, n["l"])
+                        break
         if why and not f.qn.startswith(("log_", "dump_", "prot_")):
             direct[f.key] = why
         elif why:
